@@ -30,9 +30,12 @@
 (*                       b + min(E, I) <= now (with E >= I: only complete buckets, b + I <= now);      *)
 (*   X03_AtMostOnce      without RESAMPLE clause no bucket is executed twice;                          *)
 (*   X03_NoGap           the executed buckets are contiguous: whatever was missed (lease refused,      *)
-(*                       late timer) is covered by the next pass that runs;                            *)
+(*                       late timer) is covered by the next pass that runs (claimed for GapFree        *)
+(*                       parameters, see there: EVERY and the interval can be chosen so that even      *)
+(*                       on-time passes skip buckets - recorded as a known finding);                   *)
 (*   X03_Demand          a pass standing for the schedule point T = trunc(now) covers every bucket b   *)
-(*                       with sched - F <= b < T, sched = the first missed schedule point (nextRun);   *)
+(*                       with sched - F <= b < T, sched = the first missed schedule point (nextRun)    *)
+(*                       (only complete buckets, b + I <= T, when EVERY does not divide the interval); *)
 (*                       a first pass covers now - F <= b < now iff it happens exactly on a point.     *)
 (* Across nodes (leads, EXPECTED TO BE VIOLATED; design limitations of an in-memory lastRuns):         *)
 (*   Lead_ClusterAtMostOnce  a bucket is executed once in the whole cluster (fails: hand-over to a     *)
@@ -157,16 +160,28 @@ X03_NeverFuture == (win.ran /\ win.ok) => (win.end - I + Emin <= win.at /\ win.s
 X03_AtMostOnce == NoResample => \A n \in Nodes : dupN[n] = {}
 
 Contiguous(S) == \A b1, b2 \in S : \A b \in b1..b2 : ((b - b1) % I = 0) => b \in S
-X03_NoGap == \A n \in Nodes : ~failed[n] => Contiguous(exN[n])
+\* The parameters themselves can make consecutive ON-TIME passes leave a hole: the pass at point T ends at
+\* trunc(T + I - min(E,I)), the next one (T + E) starts at trunc(T + E + I - F - 1ns).  With EVERY a multiple or a
+\* divisor of the interval (and for every combination the documentation shows) the second is never beyond the first;
+\* with e.g. GROUP BY time(30m) RESAMPLE EVERY 45m, or time(5m) EVERY 4m, it is, and whole buckets are never
+\* computed.  Known finding X01-cq-gap (known/X01.json); X03_NoGap / X03_Demand are claimed for GapFree parameters.
+GapFree == \A k \in 0..I : LET T == 2 * I * Ee + Off + k * Ee
+                           IN Trunc(T + Ee + I - Ff - Off - 1, I) <= Trunc(T + I - Emin - Off, I)
+X03_NoGap == GapFree => \A n \in Nodes : ~failed[n] => Contiguous(exN[n])
+Lead_ParamGap == \A n \in Nodes : ~failed[n] => Contiguous(exN[n])      \* violated exactly for ~GapFree parameters
 
 \* schedule point this pass stands for
 PointOf(t) == Trunc(t - Off, Ee) + Off
 Aligned(b) == (b - Off) % I = 0
+\* last bucket start demanded at schedule point T: with EVERY dividing the interval the bucket in progress is
+\* resampled (b < T); otherwise schedule points and bucket borders do not line up and only complete buckets are
+\* demanded (b + I <= T) - the bucket in progress is then covered at some points and not at others
+Last(T) == IF I % Ee = 0 THEN T - 1 ELSE T - I
 Demand ==
-  IF ~win.first THEN {b \in (win.sched - Ff)..(PointOf(win.at) - 1) : Aligned(b)}
-  ELSE IF win.at = PointOf(win.at) THEN {b \in (win.at - Ff)..(win.at - 1) : Aligned(b)}
+  IF ~win.first THEN {b \in (win.sched - Ff)..Last(PointOf(win.at)) : Aligned(b)}
+  ELSE IF win.at = PointOf(win.at) THEN {b \in (win.at - Ff)..Last(win.at) : Aligned(b)}
   ELSE {}
-X03_Demand == (win.granted /\ win.ok /\ (win.first \/ win.sched <= win.at)) => Demand \subseteq Buckets(win.start, win.end)
+X03_Demand == (GapFree /\ win.granted /\ win.ok /\ (win.first \/ win.sched <= win.at)) => Demand \subseteq Buckets(win.start, win.end)
 
 Lead_ClusterAtMostOnce == NoResample => dupAll = {}
 Lead_ClusterNoGap == (\A n \in Nodes : ~failed[n]) => Contiguous(exAll)
